@@ -36,8 +36,9 @@ fn contract_case(bias: &'static str, zero: bool) -> BoxedStrategy<SimCase> {
         sim_fracs(),
         seed(),
         (any::<bool>(), any::<bool>(), 150usize..1200),
+        text_extras(),
     )
-        .prop_map(|(trace, delay_ns, client, server, fracs, seed, (continue_after, hand_queue, iters))| SimCase {
+        .prop_map(|(trace, delay_ns, client, server, fracs, seed, (continue_after, hand_queue, iters), (pad_lines, line_style))| SimCase {
             trace,
             delay_ns,
             pps: None,
@@ -51,6 +52,8 @@ fn contract_case(bias: &'static str, zero: bool) -> BoxedStrategy<SimCase> {
             only_client: false,
             only_network: false,
             hand_queue,
+            pad_lines,
+            line_style,
         })
         .boxed()
 }
